@@ -66,17 +66,17 @@ def _continue(obj, cont, mpo):
     if cont == "compress":
         o.canonicalise()
         o.compress(temp_m_trunc=max(1, max(o.bond_dims) // 2))
-        return [np.asarray(o[i].array) for i in range(len(o))] + [np.asarray(complex(o.coeff))]
+        return [dense.dense_of(o), np.asarray(o.bond_dims)]      # (values, not tensors: the gauge inside degenerate subspaces is free)
     if cont == "normalize":
         o.normalize("mps_and_coeff")
-        return [np.asarray(o[i].array) for i in range(len(o))] + [np.asarray(complex(o.coeff))]
+        return [dense.dense_of(o)]
     if cont == "apply" and mpo is not None:
         r = mpo.apply(o)
-        return [np.asarray(r[i].array) for i in range(len(r))] + [np.asarray(complex(r.coeff))]
+        return [dense.dense_of(r)]
     if cont == "expectation" and mpo is not None and obj.is_mps:
         return [np.asarray(complex(o.expectation(mpo)))]
     o.ensure_left_canonical()
-    return [np.asarray(o[i].array) for i in range(len(o))]
+    return [dense.dense_of(o)]
 
 
 @op("dump_load")
@@ -127,7 +127,9 @@ def op_dump_load(w, s):
     except Exception as ex:
         raise V({"C14"}, "C14.continuation_raised", f"{cont} works on the original but fails on the reloaded object: {type(ex).__name__}: {ex}", sig=f"C14.continuation_raised:{cont}:{type(ex).__name__}")
     for x, y in zip(r1, r2):
-        if x.shape != y.shape or not np.array_equal(x, y):
+        # identical up to the last bits: a reloaded tensor is C-contiguous while the original may be a strided view or a spilled
+        # array, and BLAS sums in a stride-dependent order (1 ulp differences observed)
+        if x.shape != y.shape or float(np.abs(x - y).max() if x.size else 0.0) > 1e-12 * max(float(np.abs(x).max() if x.size else 0.0), 1e-300):
             raise V({"C14"}, "C14.continuation_differs", f"{cont} on the reloaded object differs from the same operation on the original (max diff {float(np.abs(x - y).max()) if x.shape == y.shape else 'shape'})",
                     sig=f"C14.continuation_differs:{cont}")
     w.stats.probes["roundtrip_continuation:" + cont] += 1
